@@ -216,9 +216,9 @@ pub fn alterations(proof: &Value, rng: &mut Rng, full: bool) -> Vec<Alteration> 
     out
 }
 
-pub fn gen_tamper(thorough: bool, rng: &mut Rng) -> Result<(), String> {
+pub fn gen_tamper(thorough: bool, rng: &mut Rng, only_pred: bool) -> Result<(), String> {
     let pool = Pool::load()?;
-    let nsc = if thorough { 25 } else { 3 };
+    let nsc = if thorough { 25 } else { 2 };
     let mut k = 0;
     for s in 0..nsc {
         // scenarios with at least one predicate and one revealed attribute
@@ -243,6 +243,9 @@ pub fn gen_tamper(thorough: bool, rng: &mut Rng) -> Result<(), String> {
         impl0["oracles"] = if matches!(v0, Out::Ok(true)) { json!([]) } else { json!([{"name":"honest_proof_verifies","ok":false,"detail":format!("untouched proof not accepted: {} {}", v0.tag(), v0.msg())}]) };
         emit(&verify_case(&format!("tamper/{}/base", s), &pool, &sc, &base, &nonce_dec, impl0, json!({"alteration":"none"})));
         for alt in alterations(&base, rng, thorough) {
+            if only_pred && !(alt.name.starts_with("ne") || alt.name.starts_with("eq.m[") || alt.name.starts_with("eq.m ")) {
+                continue;
+            }
             let nonce2_dec = dec_add(&nonce_dec, alt.nonce_delta);
             let nonce2 = bn::BigNumber::from_dec(&nonce2_dec).map_err(|e| e.to_string())?;
             let res: Out<bool> = match from_jv::<Proof>(&alt.proof) {
